@@ -405,6 +405,31 @@ func (w *World) registerHTTPIntrinsics() {
 		}
 		return e.mkSlice(types.Typ[types.Uint8], es)
 	}
+	// net.ParseCIDR of a concrete string: computed by the standard library itself
+	I["net.ParseCIDR"] = func(e *Exec, fn *ssa.Function, a []Value) Value {
+		s, ok := a[0].(*Term).strVal()
+		if !ok {
+			e.unsupported("net.ParseCIDR on a symbolic string (string parsing of addresses is outside the encoding)")
+		}
+		bytesOf := func(bs []byte) *SliceVal {
+			var es []Value
+			for _, b := range bs {
+				if e.bvMode {
+					es = append(es, mkBV(uint64(b), 8))
+				} else {
+					es = append(es, mkInt(int64(b)))
+				}
+			}
+			return e.mkSlice(types.Typ[types.Uint8], es)
+		}
+		ipv, ipn, err := net.ParseCIDR(s)
+		if err != nil {
+			return tuple(&SliceVal{isNil: true}, &Pointer{}, e.newError(err.Error()))
+		}
+		nt := e.errorsPkgType("net", "IPNet")
+		obj := e.newObject(nt, &StructVal{[]Value{bytesOf(ipn.IP), bytesOf(ipn.Mask)}}, "ipnet")
+		return tuple(bytesOf(ipv), &Pointer{obj: obj}, nilIface)
+	}
 	// net.IP.String: an injective function of the family-normalised bytes, with
 	// disjoint images for IPv4 (incl. IPv4-mapped) and IPv6
 	I["(net.IP).String"] = func(e *Exec, fn *ssa.Function, a []Value) Value {
